@@ -53,10 +53,17 @@ fn gen(r: &mut Rng) -> Case {
             Case { family: format!("group-letter:{g}"), short: vec![tm.replace("{}", &g.to_string())], long: vec![long], words }
         }
         3 => { // optionals
-            let x = *r.pick(&EL[..]); let m = r.below(3); let nmax = match r.below(4) { 0 => 0, _ => m + r.below(3) };
+            // a third of the cases aim at the retry path: a broad repeated element with room for more repetitions, followed by a
+            // rest of two or three elements whose first is broad too (so that the rest often matches in part and then fails)
+            let retry = r.chance(1, 3);
+            const BROAD: [&str; 6] = ["[+cont]", "[+voice]", "V", "C", "[]", "{V,n}"];
+            let x = if retry { *r.pick(&BROAD[..]) } else { *r.pick(&EL[..]) };
+            let m = if retry { r.range(1, 2) } else { r.below(3) };
+            let nmax = if retry { m + r.range(1, 2) } else { match r.below(4) { 0 => 0, _ => m + r.below(3) } };
             let nmax = if nmax == 0 && m > 0 { m } else { nmax };
             let pre: Vec<&str> = (0..r.below(2)).map(|_| *r.pick(&EL[..])).collect();
-            let post: Vec<&str> = (0..r.below(3)).map(|_| *r.pick(&EL[..])).collect();
+            let post: Vec<&str> = if retry { let mut v = vec![*r.pick(&BROAD[..])]; for _ in 0..r.range(1, 2) { v.push(*r.pick(&EL[..])) } v } else { (0..r.below(3)).map(|_| *r.pick(&EL[..])).collect() };
+            if retry { words = (0..10).map(|_| rand_word(r, &WordCfg::default())).collect(); }
             let inp = *r.pick(&["a", "V", "C", "s", "{i,u}", "a t"][..]); let out = if inp == "a t" { *r.pick(&["&", "*"][..]) } else { *r.pick(&["o", "x", "[+nasal]", "*"][..]) };
             let before = r.chance(1, 2);
             let maxlen = words.iter().map(|w| w.chars().count()).max().unwrap_or(4);
